@@ -123,6 +123,9 @@ def run(tier):
     rule_R4(res, prog, cg, c)
     rule_R5(res, prog, cg, c, tr, eng)
     rule_R6(res, prog)
+    rule_R7(res, prog)
+    rule_R8(res, prog)
+    rule_R9(res, prog)
     return res.finish()
 
 
@@ -457,3 +460,136 @@ def rule_R6(res, prog):
     if nm == 0:
         raise AnalysisBroken("C01.R6: no branch on hsState == SSL_HS_TLS_1_3_WAIT_EOED in matrixSslDecodeTls13")
     res.floor(rid, 2)
+
+
+def rule_R7(res, prog):
+    """'application data is accepted only under keys an authenticated handshake produced': the server's 0-RTT read keys are
+    expanded (tls13DeriveEarlyDataKeys, done once) from the client early traffic secret, which tls13DeriveEarlyDataSecret
+    recomputes from the early secret on EVERY pass of the re-entrant flight encoder - and the early secret is wiped once the
+    handshake secrets exist.  So the expansion must happen in the pass that computed the secret: no tls13Write* call (which
+    may return SSL_FULL and cause a second pass) lies on a path to tls13DeriveEarlyDataKeys.  Otherwise a flight that does
+    not fit the buffer makes the second pass expand the keys from ExpandLabel(0.., "c e traffic", ..), which anyone on the
+    path can compute, and forged early data is handed to the application."""
+    from sa import cfgutil as cu
+    rid = "C01.R7"
+    res.rule(rid, "TLS 1.3 server: 0-RTT read keys are expanded before any write of the pass can fail (never from a recomputed, wiped secret)")
+    lst = prog.by_name.get("tls13EncodeResponseServer")
+    if not lst:
+        if prog.defined("USE_TLS_1_3"):
+            raise AnalysisBroken("C01.R7: tls13EncodeResponseServer vanished")
+        res.floor(rid, 0)
+        return
+    fn = lst[0]
+    n = 0
+    writes = cu.find_sites(fn, lambda m: m.get("k") == "call" and (m.get("fn") or "").startswith("tls13Write"))
+    for (kb, ki, kln, knode) in cu.find_sites(fn, lambda m: m.get("k") == "call" and m.get("fn") == "tls13DeriveEarlyDataKeys"):
+        n += 1
+        bad = None
+        for (wb, wi, wln, wnode) in writes:
+            esc = cu.escapes(fn, (wb, wi), lambda x: False, target_expr=lambda x, knode=knode: any(m is knode for m in walk(x)))
+            if esc is not None:
+                bad = (wln, [p_[1] for p_ in esc[-5:]])
+                break
+        f_ = None
+        if bad:
+            f_ = Finding(PROP, rid, fn.name, "0-RTT keys expanded after a write that can fail",
+                         "%s:%s tls13EncodeResponseServer(): tls13DeriveEarlyDataKeys() is reachable from the tls13Write* call at line %s (via lines %s): "
+                         "when that write returns SSL_FULL the case runs again, tls13DeriveEarlyDataSecret recomputes the client early traffic "
+                         "secret from the early secret that has been wiped meanwhile, and the keys are expanded from a value anybody can "
+                         "compute - forged early data is then delivered to the application" % (fn.relfile, kln, bad[0], bad[1]),
+                         file=fn.relfile, line=kln)
+        res.instance(rid, "tls13EncodeResponseServer:%s early-data keys expanded before any fallible write" % kln, bad is None, finding=f_)
+    res.floor(rid, 1)
+
+
+def rule_R8(res, prog):
+    """'only under keys an authenticated handshake produced', client side: a session id object carries (id, master secret,
+    suite) and, for ticket resumption, the ticket that stands for exactly that master secret.  Where library code wipes the
+    master secret of an application-supplied sslSessionId_t (the suite is not in the caller's cipher list), every path to
+    the function's return also drops the ticket (sessionTicketLen = 0).  A ticket left behind is offered in the ClientHello,
+    and ServerHello-without-extension + ChangeCipherSpec then abbreviates the handshake on an ALL-ZERO master secret: anybody
+    can play the server."""
+    from sa import cfgutil as cu
+    rid = "C01.R8"
+    res.rule(rid, "a session id object's ticket is dropped wherever its master secret is wiped")
+    MEMSET = {"memset", "__builtin_memset", "__builtin___memset_chk"}
+    n = 0
+    for fn in sorted(prog.functions.values(), key=lambda f: f.qname):
+        if not fn.blocks or not fn.relfile.startswith("matrixssl/") or "/test/" in fn.relfile:
+            continue
+        sids = set(p_.get("id") for p_ in fn.params if "sslSessionId" in (p_.get("t") or ""))
+        if not sids:
+            continue
+        for b in fn.blocks:
+            for i, ln, x in cu.block_exprs(b):
+                for m in walk(x):
+                    if m.get("k") == "call" and m.get("fn") in MEMSET and len(m.get("a", [])) >= 2:
+                        d = strip(m["a"][0])
+                        while d is not None and d.get("k") == "cast":
+                            d = strip(d["e"])
+                        z = strip(m["a"][1])
+                        if d is None or d.get("k") != "mem" or d.get("f") != "masterSecret" or z is None or z.get("k") != "int" or z["v"] != 0:
+                            continue
+                        base = strip(d.get("b") or d.get("e") or {})
+                        if base is None or base.get("k") != "var" or base.get("id") not in sids:
+                            continue
+                        n += 1
+                        bn = base["n"]
+
+                        def drops(y, bn=bn):
+                            return any(q.get("k") == "bin" and q["op"] == "=" and cu.ftext(strip(q["l"]) or {}) == "%s->sessionTicketLen" % bn and
+                                       (strip(q["r"]) or {}).get("k") == "int" and strip(q["r"])["v"] == 0 for q in walk(y))
+                        esc = cu.escapes(fn, (b["id"], i), drops)
+                        f_ = None
+                        if esc is not None:
+                            f_ = Finding(PROP, rid, fn.name, "master secret wiped, ticket kept",
+                                         "%s:%s %s(): %s->masterSecret is zeroed but a path reaches the return at line %s without %s->sessionTicketLen = 0: "
+                                         "the next ClientHello still offers the ticket, a ServerHello without the ticket extension followed by "
+                                         "ChangeCipherSpec abbreviates the handshake on an all-zero master secret, and a peer holding no key at all has "
+                                         "its application data delivered" % (fn.relfile, ln, fn.name, bn, esc[-1][1], bn), file=fn.relfile, line=ln)
+                        res.instance(rid, "%s:%s wiping %s->masterSecret also drops the ticket" % (fn.name, ln, bn), esc is None, finding=f_)
+    res.floor(rid, 1)
+
+
+def rule_R9(res, prog):
+    """TLS 1.3 server: 0-RTT read keys exist only for a chosen PSK.  Where the server gives the chosen PSK up
+    (tls13ChosenPsk = NULL) it also takes back `using a PSK` and - in the key exchange mode selection, which runs right
+    before the flight is built - `early data accepted`; otherwise tls13ActivateEarlyDataReadKeys() switches on keys that were
+    never derived (all zero) and records anybody protects with them are delivered as early data."""
+    from sa import cfgutil as cu
+    rid = "C01.R9"
+    res.rule(rid, "TLS 1.3 server: giving up the chosen PSK also withdraws `using a PSK` and (in selectKeyExchangeMode) accepted early data")
+    WANT = {"selectKeyExchangeMode": ("ssl->sec.tls13UsingPsk", "ssl->tls13ServerEarlyDataEnabled"),
+            "tls13EncodeResponseServer": ("ssl->sec.tls13UsingPsk",)}
+    n = 0
+    for fn in sorted(prog.functions.values(), key=lambda f: f.qname):
+        if not fn.blocks or not fn.relfile.startswith("matrixssl/") or "/test/" in fn.relfile:
+            continue
+        for b in fn.blocks:
+            for i, ln, x in cu.block_exprs(b):
+                for m in walk(x):
+                    if not (m.get("k") == "bin" and m["op"] == "=" and cu.ftext(strip(m["l"]) or {}) == "ssl->sec.tls13ChosenPsk"):
+                        continue
+                    r = strip(m["r"])
+                    while r is not None and r.get("k") == "cast":
+                        r = strip(r["e"])
+                    if r is None or r.get("k") != "int" or r["v"] != 0:
+                        continue
+                    for field in WANT.get(fn.name, ("ssl->sec.tls13UsingPsk",)):
+                        n += 1
+
+                        def clears(y, field=field):
+                            return any(q.get("k") == "bin" and q["op"] == "=" and cu.ftext(strip(q["l"]) or {}) == field and
+                                       (strip(q["r"]) or {}).get("k") in ("int", "cast") and (strip(q["r"]).get("v", 0) == 0 if strip(q["r"]).get("k") == "int"
+                                                                                             else (strip(strip(q["r"])["e"]) or {}).get("v") == 0)
+                                       for q in walk(y))
+                        before = any(clears(x2) for i2, l2, x2 in cu.block_exprs(b))
+                        esc = None if before else cu.escapes(fn, (b["id"], i), clears)
+                        f_ = None
+                        if esc is not None:
+                            f_ = Finding(PROP, rid, fn.name, "chosen PSK given up, %s kept" % field.split("->")[-1],
+                                         "%s:%s %s(): ssl->sec.tls13ChosenPsk = NULL without %s = false on the way out: with a valid PSK and early_data "
+                                         "but no usable psk_key_exchange_modes the server activates early-data read keys that were never derived "
+                                         "(all zero) and delivers records protected with them" % (fn.relfile, ln, fn.name, field), file=fn.relfile, line=ln)
+                        res.instance(rid, "%s:%s giving up the chosen PSK withdraws %s" % (fn.name, ln, field), esc is None, finding=f_)
+    res.floor(rid, 3)
